@@ -42,8 +42,12 @@ def _canon(line):
 
 
 def oracle_ok(case, impl, oracle):
-    if oracle == "-" or "panic" in impl:
+    if "panic" in impl:
         return False
+    if oracle == "-":
+        # no model/oracle column at all (the executable model could not be built: reported separately as a broken
+        # obligation, "no-failing-input-found"); not a verdict about this input
+        return True
     a, b = _canon(impl), _canon(oracle)
     return a is not None and a == b
 
@@ -53,26 +57,63 @@ def nontrivial(case, impl, model, oracle):
     return "err " in impl and ("[]" in impl or "+" in impl)
 
 
+_rset = re.compile(r" R\{([^}]*)\}")
+
+
+def _n_rdatas(step):
+    m = _rset.search(step)
+    return sum(x.rsplit(":", 1)[-1].count("+") + 1 for x in m.group(1).split(";")) if m and m.group(1) else 0
+
+
+def ci_absorbed(case, impl):
+    """number of ACCEPTED adds that did not grow any RRset although no octet-identical RDATA had been added to that
+    (owner, type) before: the record was absorbed by Rdata::equals on a differently spelled RDATA"""
+    f = case.split()
+    if len(f) < 4 or f[3] == "-":
+        return 0
+    steps = impl.split(" / ")
+    n, prev, seen = 0, _n_rdatas(steps[0]), {}
+    for rec, st in zip(f[3].split(";"), steps[1:]):
+        o, ty, _c, _ttl, rd = rec.split(",")
+        cur = _n_rdatas(st)
+        if st.startswith("ok"):
+            key = (zg.lower_names("~" + o), ty)
+            if cur == prev and rd not in seen.get(key, ()):
+                n += 1
+            seen.setdefault(key, set()).add(rd)
+        prev = cur
+    return n
+
+
 def classify(case, impl, model, oracle):
     ks = sorted(set(re.findall(r"err (\w+)", impl)))
-    return ("panic " if "panic" in impl else "") + ("ok+" + "+".join(ks) if ks else "ok-only")
+    ci = " ci-dedup" if ci_absorbed(case, impl) else ""
+    return ("panic " if "panic" in impl else "") + ("ok+" + "+".join(ks) if ks else "ok-only") + ci
 
 
 def gen_rdset(rng, tier):
-    """RdataSetOwned::from_iter at the buffer level: lengths around the u16 byte split, duplicates,
-    case variants for the single-name types, empty RDATA."""
+    """RdataSetOwned::from_iter at the buffer level: lengths around the u16 byte split, duplicates, empty RDATA, and
+    (real Rdata::equals) every name-bearing type with case variants of the embedded names, fixed-field variants and
+    malformed RDATA (compared octet-wise), in the classes where SRV / A change their comparison rule."""
     n = 4000 if tier == "quick" else 200000
+    named = list(zg.ONE_NAME_TYPES) + [zg.T_MX, zg.T_MX, zg.T_SOA, zg.T_SOA, zg.T_MINFO, zg.T_SRV, zg.T_SRV, zg.T_A]
     for _ in range(n):
-        ty = rng.choice([1, 16, 16, 2, 5, 12, 99])
         cls = rng.choice([1, 1, 3, 7])
         pool = []
-        for _ in range(rng.randint(1, 4)):
-            if ty in (2, 5, 12):
-                pool.append(zg.wire(zg.flip_case(rng, [rng.choice(["6e73", "61", "6162"])] + rng.choice([[], ["63"]]), 0.4)))
-            else:
-                ln = rng.choice([0, 1, 2, 4, 16, 255, 256, 257, 300, 511, 512, 513, rng.randint(0, 700)])
-                b = rng.choice(["00", "61", "ff"])
-                pool.append((b * ln) or "-")
+        if rng.random() < 0.6:
+            ty = rng.choice(named)
+            apex = rng.choice(zg.APEXES)
+            while len(pool) < rng.randint(1, 4):
+                pool += zg.name_record_burst(rng, ty, cls, apex) or [rng.choice(zg.A_POOL)]
+        else:
+            ty = rng.choice([1, 16, 16, 2, 5, 12, 99])
+            for _ in range(rng.randint(1, 4)):
+                if ty in (2, 5, 12):
+                    pool.append(zg.wire(zg.flip_case(rng, [rng.choice(["6e73", "61", "6162"])] + rng.choice([[], ["63"]]), 0.4)))
+                else:
+                    ln = rng.choice([0, 1, 2, 4, 16, 255, 256, 257, 300, 511, 512, 513, rng.randint(0, 700)])
+                    b = rng.choice(["00", "61", "ff"])
+                    pool.append((b * ln) or "-")
         k = rng.randint(1, 8)
         yield f"B {cls} {ty} {','.join(rng.choice(pool) for _ in range(k))}"
 
@@ -89,18 +130,24 @@ def classify_rdset(case, impl, model, oracle):
         return impl
     given = case.split()[3].split(",")
     kept = impl[3:].split("+")
-    return f"kept{len(kept)}of{len(given)}"
+    # "ci": fewer members than DISTINCT octet strings given, i.e. Rdata::equals identified differently spelled RDATA
+    return f"kept{len(kept)}of{len(given)}" + (" ci" if len(kept) < len(set(given)) else "")
 
 
-RDSET_RULE = ("RdataSetOwned::from_iter on 1..8 RDATAs drawn with repetition from a pool of <=4 (lengths 0,1,2,4,16,255,256,257,300,"
-              "511,512,513 and random <=700; valid names with case variants for NS/CNAME/PTR), classes IN/CH/7; compared: the RDATAs "
+RDSET_RULE = ("RdataSetOwned::from_iter on 1..8 RDATAs drawn with repetition from a pool of <=4..6: 40% opaque (lengths 0,1,2,4,16,255,256,257,300,"
+              "511,512,513 and random <=700; valid names with case variants for NS/CNAME/PTR), 60% name-bearing (NS/CNAME/PTR/MB/MG/MR/MD/MF, "
+              "MX, SOA, MINFO, SRV, A: a base RDATA plus variants differing only in the letter case of the embedded names, in a fixed "
+              "field, or malformed — junk octet, missing root label, 64-octet label, pointer, >255-octet name, leading root label; names "
+              "with 63-octet labels and of exactly 255 octets), classes IN/CH/7; compared: the RDATAs "
               "iter() yields, against the octet-buffer model and against the spec's first-occurrence de-duplication; "
               "non-trivial = a duplicate was dropped or an RDATA of >=256 octets is present")
 
 CHECK = {
     "property": "C20",
     "props": "Props/C20.v",
-    "theorems": ["c20_add_result", "c20_add_ok_iff", "c20_add_err_kind", "c20_iter_by_node",
+    "theorems": ["c20_req_real_is_equals", "c20_add_result_real", "c20_iter_by_node_real", "c20_iter_by_rrset_real",
+                 "c20_iter_names_spelled_real", "c20_soa_ns_real", "c20_rrset_is_c19_set", "c20_rdataset_real_buffer", "c20_stored_rdata_real",
+                 "c20_add_result", "c20_add_ok_iff", "c20_add_err_kind", "c20_iter_by_node",
                  "c20_iter_by_rrset", "c20_iter_names_spelled", "c20_iter_state_machine", "c20_soa_ns",
                  "c20_rdataset_buffer", "c20_rdataset_insert"],
     "allowed_axioms": [],
@@ -128,9 +175,10 @@ CHECK = {
         "tools/gen/zoneconsts.py re-extracts Type::{A,NS,CNAME,SOA,MX,AAAA}, Class::IN and Label::asterisk() from the source",
         "model abstractions (differentially tested, not proved): Name as list of labels, HashMap as association list "
         "(iteration order unspecified: compared as sorted sets), binary_search_by_key as ordered scan of the sorted Vec",
-        "Rdata::equals is a parameter of model and spec, assumed transitive; the runner uses req_simple (exact on the generated RDATA)",
+        "Rdata::equals is no longer a parameter: the *_real theorems use Model/RdataM.v equals (C19: total, equal to the RFC "
+        "characterisation spec_equals) on the model side and spec_equals on the specification side; the runner runs exactly these",
     ],
-    "assumptions": ["Rdata::equals is transitive for every (class, type)",
+    "assumptions": ["every RDATA is a string of octets (elements < 256: the u8 type) — the domain of C19's theorems",
                     "zones are built only by HashMapTreeZone::new and add"],
 }
 
@@ -138,11 +186,13 @@ MANIFEST = {
     "level_text": ("Coq theorems (no axioms): for every add history, add returns exactly the specification's verdict "
                    "(owner in zone, class, TTL of the existing RRset) and a rejected add returns the identical tree; "
                    "iter_by_node yields every existing name (empty non-terminals included) exactly once with its RRsets, "
-                   "iter_by_rrset exactly the de-duplicated RRsets of the accepted records once each, and soa()/ns() agree "
+                   "iter_by_rrset exactly the RRsets of the accepted records once each, de-duplicated by the real Rdata::equals "
+                   "(= nodup_by of C19's RFC characterisation: case-insensitive embedded names on valid RDATA, octet-wise otherwise), "
+                   "and soa()/ns() agree "
                    "with the apex item. Model tied to the code by a differential run over 4000 add histories with the full "
                    "iteration after every step."),
     "level_note": ("Trusted: Coq kernel, extraction, the hand-written model's correspondence to the Rust code (differentially "
-                   "tested), Rdata::equals abstract and transitive."),
+                   "tested). Rdata::equals is the proved model of C19 (real instance), not a parameter."),
     "technique": "machine-checked proof in Coq (abstraction invariant tree <-> flat accepted-record list, induction over the nested tree) + model/implementation correspondence check",
     "design_ref": "DESIGN.md §4 C20",
 }
